@@ -129,7 +129,9 @@ pub fn generate(_cfg: &RunCfg, _out: &mut Outcome) -> Scenario {
         let depth = t::weighted(&[5, 3, 2, 1]);
         let mut path: Vec<String> = (0..depth).map(|_| t::pick(&DIRS).to_string()).collect();
         let ext = t::pick(&EXTS).0;
-        let name = match t::weighted(&[120, 30, 1, 1, 1]) {
+        let name = match t::weighted(&[120, 30, 1, 1, 1, 12]) {
+            // names that merely end in (or contain) the index file's name
+            5 => t::pick(&["old-index.html", "reindex.html", "index.html.txt", "index.htm.html", "xindex.html", "index.css"]).to_string(),
             0 => format!("{}.{}", t::pick(&STEMS), ext),
             1 => "index.html".to_string(),
             2 => t::pick(&STEMS).to_string(),                       // no extension: rejected
